@@ -67,6 +67,9 @@ def norm_dump(d):
 def make_case(rng, size):
     # every third case lies in the fragment of the end-to-end theorem (primitive and plain reference features only)
     g = casgen.CasGen(rng, n_types=rng.randint(1, 6), n_fs=size, xmi_safe=True, flat=rng.random() < 0.34).build()
+    if rng.random() < 0.2:
+        # features added to a type that already has an instance, after a first serialisation
+        casgen.add_late_extension(g, rng, lambda h0: [{"op": "xmi.save", "h": h0}])
     return g
 
 
